@@ -1,4 +1,4 @@
-import ScVerif.C05.OptFrame
+import ScVerif.C05.OptMore
 /-!
 # C05 — the masks a write runs with, as computed from its options, and sequences of writes
 
@@ -8,7 +8,11 @@ resource construction options, `runSeq`/`finalStored`: sequences of writes on on
 say that the update / reset / writable masks computed by the code's forward fold over the option list
 are the ones the options denote (specification: scan from the last option backwards, path sets), lift
 the write theorems of `Props.lean` to the level of option lists, and extend the frame to all
-sequences of writes.
+sequences of writes — for top-level fields (`C05_sequence_frame`) and at any depth
+(`C05_sequence_frame_depth`, helper lemmas in `SeqDepth.lean`).  Round 5 adds the option
+CONSTRUCTORS as a caller writes them (`WCtor`, `WCtor.opt`: `C05_constructors_keep_paths`,
+`C05_write_rejects_constructors`) and read-only resources, i.e. a writable mask that is non-nil
+without paths (`C05_read_only_write`, `C05_read_only_sequence`; helper lemmas in `OptMore.lean`).
 -/
 namespace ScVerif.C05
 open ScVerif.C06 (GoodPath validPath_iff)
@@ -81,7 +85,7 @@ theorem C05_write_rejects_options (S : Schema) (ty : Nat) (resW : Option (List P
   have hpM : p ∈ M := (hmem p).mpr hp
   intro stored src
   unfold writeWith
-  refine (C05_rejects S ty _ M hM ?_).2 stored src
+  refine (C05_rejects S ty _ M ((fieldUpdater_update _ resW).trans hM) ?_).2 stored src
   rcases hbad with h | ⟨W, hW, h⟩
   · exact Or.inl ⟨p, hpM, h⟩
   · exact Or.inr ⟨W, hW, p, hpM, h⟩
@@ -148,7 +152,7 @@ theorem C05_write_nil_update_replaces (S : Schema) (ty : Nat) (resW : Option (Li
   unfold writeWith valueSet at h
   generalize hu : (computeWriteConfig opts).fieldUpdater resW = u at h
   have hupd : u.update = none := by
-    rw [← hu]; exact C05_more_update_keeps_nil opts hU
+    rw [← hu, fieldUpdater_update]; exact C05_more_update_keeps_nil opts hU
   have hres : u.reset = specReset opts := by rw [← hu]; exact (writeWith_updater resW opts).2
   obtain ⟨hnone, hsome⟩ := C05_options_writable resW opts
   rw [hu] at hnone hsome
@@ -227,6 +231,70 @@ theorem C05_sequence_frame (S : Schema) (ty : Nat) (resW : Option (List Path)) (
             exact merge_avoids S ty _ stored s.src r k hs hd hm
         · cases ho
 
+/-- **C05_sequence_frame_depth** (the frame AT ANY DEPTH over ALL sequences of writes on one
+resource; the tree hypotheses of `C05_frame` carried through the sequence).  For every resource
+writable mask, path `p` through singular messages (any depth), initial stored message with unique
+keys along `p`, and every finite sequence of writes (`Value.Set` / `Collection.Update` of the item,
+`Collection.Add` of other items; accepted, rejected or panicking, each with its own option list): if
+every write of the item leaves `p` alone — its update mask (its writable fields when the update mask
+is nil) and its reset mask are unrelated to `p` — and its written message has unique keys along `p`
+and fits `p` (`Fits`: messages on the way down, no non-message at `p` where a message is stored),
+then after the whole sequence the resource holds at `p` exactly what it held before — and its keys
+along `p` are still unique.  The hypotheses speak about the INITIAL stored message and the written
+messages only: that they hold again for every intermediate stored message is part of the proof
+(`merge_avoidsPath`: one write keeps the value at `p` and the uniqueness of keys along `p`). -/
+theorem C05_sequence_frame_depth (S : Schema) (ty : Nat) (resW : Option (List Path)) (p : Path)
+    (hp : p ≠ []) (hdisp : NoDispAlong S ty p) :
+    ∀ (steps : List Step) (stored : Fields), NoDupAlong p stored →
+      (∀ s ∈ steps, s.fresh = false →
+        AvoidsPath p ((computeWriteConfig s.opts).fieldUpdater resW) ∧
+        NoDupAlong p s.src ∧ Fits (stored.getPath p) p s.src) →
+      (finalStored S ty resW stored steps).getPath p = stored.getPath p ∧
+        NoDupAlong p (finalStored S ty resW stored steps) := by
+  intro steps
+  induction steps with
+  | nil => intro stored hn _; exact ⟨rfl, hn⟩
+  | cons s rest ih =>
+    intro stored hn hall
+    have hrest : ∀ s' ∈ rest, s'.fresh = false →
+        AvoidsPath p ((computeWriteConfig s'.opts).fieldUpdater resW) ∧
+        NoDupAlong p s'.src ∧ Fits (stored.getPath p) p s'.src :=
+      fun s' hs' => hall s' (List.mem_cons_of_mem _ hs')
+    unfold finalStored
+    cases ho : s.run S ty resW stored with
+    | panic => exact ⟨rfl, hn⟩
+    | err c => simp only [Step.next]; exact ih stored hn hrest
+    | ok st src' =>
+      simp only [Step.next]
+      cases hf : s.fresh with
+      | true => simp only [if_true]; exact ih stored hn hrest
+      | false =>
+        simp only [Bool.false_eq_true, if_false]
+        obtain ⟨hav, hns, hfit⟩ := hall s (List.mem_cons_self ..) hf
+        unfold Step.run writeWith valueSet at ho
+        simp only [hf, Bool.false_eq_true, if_false] at ho
+        split at ho
+        · split at ho
+          · cases ho
+          next r hm =>
+            simp only [SetOut.ok.injEq] at ho
+            obtain ⟨rfl, _⟩ := ho
+            obtain ⟨hget, hn'⟩ := merge_avoidsPath S ty _ stored s.src r p hav hp hdisp hn hns hfit hm
+            have := ih r.dst hn' (fun s' hs' hf' => by rw [hget]; exact hrest s' hs' hf')
+            rw [hget] at this
+            exact this
+        · cases ho
+
+/-- **C05_fits_of_conforms** (the `Fits` hypothesis of `C05_sequence_frame_depth` is what typing
+gives).  For every schema and path `p` whose segments before the last are singular message fields
+(`MsgPath`: the paths `fieldmaskpb` lets a mask continue through): every written message that
+conforms to the schema fits `p` against every conforming stored message — every field populated
+with a value of its declared kind, recursively, is all it takes. -/
+theorem C05_fits_of_conforms (S : Schema) (ty : Nat) (p : Path) (stored src : Fields)
+    (hp : MsgPath S ty p) (hst : Fields.conforms S ty stored = true) (hsrc : Fields.conforms S ty src = true) :
+    Fits (stored.getPath p) p src :=
+  fits_of_kind S _ p ty src hp hsrc (fun _ hdf => kind_at_path S p ty stored _ hst hdf)
+
 /-- **C05_sequence_history_free.**  Later writes depend on earlier ones only through the stored
 message: for every sequence `pre ++ rest` (no panic in `pre`), the outcomes of `rest` are those of
 running `rest` alone on a resource that stores what `pre` left — nothing else (no updater, no mask,
@@ -250,6 +318,140 @@ theorem C05_sequence_history_free (S : Schema) (ty : Nat) (resW : Option (List P
       simp only [List.cons_append, runSeq, finalStored, ho]
       rw [ih]
       intro hp; apply hnp; simp [runSeq, ho, hp]
+
+/-- **C05_constructors_keep_paths** (over ALL option constructors, in any list).  Every
+`resource.With…Paths(paths...)` constructor is its `With…Mask` sibling on a non-nil mask holding the
+variadic paths exactly as given (`WCtor.opt`), and for every list of constructors:
+* the update mask the write runs with is — path for path, in order, duplicates, paths inside other
+  paths and paths unknown to the message included — the paths handed to the last non-nil
+  `WithUpdateMask/Paths` followed by those handed to the `WithMoreUpdateMask/Paths` constructors after
+  it: NO constructor sorts, de-duplicates, normalises or drops an update path (so `Validate` sees
+  every path the caller wrote);
+* the reset mask is exactly the mask handed to the last `WithResetMask/Paths`.
+(The writable side is the one family that normalises — `WithMoreWritable*` use `fieldmaskpb.Union` —
+and there only the covered path-set matters: `C05_options_writable`.) -/
+theorem C05_constructors_keep_paths (pre post : List WCtor) (c : WCtor) :
+    (∀ B, c.updateGiven = some (some B) → (∀ c' ∈ post, c'.updateGiven = none) →
+      (computeWriteConfig ((pre ++ c :: post).map WCtor.opt)).update
+        = some (B ++ (post.map WCtor.moreUpdateGiven).flatten)) ∧
+    (∀ R, c.resetGiven = some R → (∀ c' ∈ post, c'.resetGiven = none) →
+      (computeWriteConfig ((pre ++ c :: post).map WCtor.opt)).reset = R) := by
+  have hsplit : computeWriteConfig ((pre ++ c :: post).map WCtor.opt) =
+      (post.map WCtor.opt).foldl WOpt.apply (WOpt.apply (computeWriteConfig (pre.map WCtor.opt)) c.opt) := by
+    rw [List.map_append, List.map_cons, computeWriteConfig_split]
+  constructor
+  · intro B hB hpost
+    rw [hsplit]
+    refine foldl_update_exact post _ B ?_ hpost
+    cases c <;> simp [WCtor.updateGiven] at hB <;> subst hB <;> simp [WCtor.opt, WOpt.apply, maskOfPaths]
+  · intro R hR hpost
+    rw [hsplit, foldl_reset_exact post _ hpost]
+    cases c <;> simp [WCtor.resetGiven] at hR <;> subst hR <;> simp [WCtor.opt, WOpt.apply, maskOfPaths]
+
+/-- **C05_write_rejects_constructors** (the `rejects` clause for the constructors as called).  Whatever
+mixture of `…Mask` and `…Paths` constructors a write is given: if ONE path handed to the last non-nil
+`WithUpdateMask/Paths` or to a `WithMoreUpdateMask/Paths` after it is not well-formed for the message
+type — also when it lies below another, valid, path of the same call (`WithUpdatePaths("f", "f.nope")`)
+— or is outside the write's writable mask, `Value.Set` / `Collection.Update` reject the write with
+`InvalidArgument`, for every resource, stored and written message. -/
+theorem C05_write_rejects_constructors (S : Schema) (ty : Nat) (resW : Option (List Path))
+    (pre post : List WCtor) (c : WCtor) (B : List Path)
+    (hc : c.updateGiven = some (some B)) (hpost : ∀ c' ∈ post, c'.updateGiven = none) (p : Path)
+    (hp : p ∈ B ∨ ∃ c' ∈ post, p ∈ c'.moreUpdateGiven)
+    (hbad : ¬ GoodPath S ty p ∨
+      ∃ W, ((computeWriteConfig ((pre ++ c :: post).map WCtor.opt)).fieldUpdater resW).writable = some W ∧
+        ¬ InsideWritable W p) :
+    ∀ stored src, writeWith S ty resW ((pre ++ c :: post).map WCtor.opt) stored src
+      = .err .invalidArgument := by
+  have hM := (C05_constructors_keep_paths pre post c).1 B hc hpost
+  have hpM : p ∈ B ++ (post.map WCtor.moreUpdateGiven).flatten := by
+    rcases hp with h | ⟨c', hc', h⟩
+    · exact List.mem_append.mpr (Or.inl h)
+    · exact List.mem_append.mpr (Or.inr (List.mem_flatten.mpr ⟨_, List.mem_map.mpr ⟨c', hc', rfl⟩, h⟩))
+  have hu : ((computeWriteConfig ((pre ++ c :: post).map WCtor.opt)).fieldUpdater resW).update
+      = some (B ++ (post.map WCtor.moreUpdateGiven).flatten) := by
+    rw [(writeWith_updater resW _).1, ← cwc_update]; exact hM
+  intro stored src
+  unfold writeWith
+  refine (C05_rejects S ty _ _ hu ?_).2 stored src
+  rcases hbad with h | ⟨W, hW, h⟩
+  · exact Or.inl ⟨p, hpM, h⟩
+  · exact Or.inr ⟨W, hW, p, hpM, h⟩
+
+/-- **C05_read_only_write** (one ordinary write on a read-only resource).  The resource's writable
+mask is NON-NIL WITHOUT PATHS (`WithWritableFields(&FieldMask{})`, `WithWritablePaths(m)`): for every
+option list of an ordinary write (no `WithAllFieldsWritable`, no `WithMoreWritable*` path), stored and
+written message:
+* the `FieldUpdater` runs with a non-nil writable mask without paths (it is NOT turned into nil =
+  "everything writable" anywhere between the resource and `Merge`);
+* an update mask with at least one path — valid or not — is rejected with `InvalidArgument`;
+* an accepted write copies nothing: without reset mask, or with an empty non-nil update mask, the
+  stored message is exactly what it was; in every case each path unrelated to the reset paths holds
+  what it held (any depth, no hypothesis on the trees). -/
+theorem C05_read_only_write (S : Schema) (ty : Nat) (opts : List WOpt) (hro : OrdinaryWrite opts)
+    (stored src : Fields) :
+    ((computeWriteConfig opts).fieldUpdater (some [])).writable = some [] ∧
+    (∀ M, specUpdate opts = some M → M ≠ [] →
+      writeWith S ty (some []) opts stored src = .err .invalidArgument) ∧
+    (∀ st src', writeWith S ty (some []) opts stored src = .ok st src' →
+      ((specUpdate opts = some [] ∨ specReset opts = none) → st = stored) ∧
+      ∀ p, p ≠ [] → (∀ R, specReset opts = some R → Clean R ∧ Unrelated p R) →
+        st.getPath p = stored.getPath p) := by
+  have hW := writable_of_readOnly opts hro
+  obtain ⟨hupd, hres⟩ := writeWith_updater (some []) opts
+  refine ⟨hW, ?_, ?_⟩
+  · intro M hM hne
+    unfold writeWith
+    exact ((C05_nothing_writable S ty _ stored src hW).1 M (hupd.trans hM) hne).2 stored src
+  · intro st src' h
+    unfold writeWith valueSet at h
+    split at h
+    · split at h
+      · cases h
+      next r hm =>
+        simp only [SetOut.ok.injEq] at h
+        obtain ⟨rfl, _⟩ := h
+        obtain ⟨_, hsame, _, hframe⟩ := (C05_nothing_writable S ty _ stored src hW).2 r hm
+        refine ⟨fun hc => hsame (hc.imp (fun e => hupd.trans e) (fun e => hres.trans e)), ?_⟩
+        intro p hp hR
+        exact hframe p hp (fun R hr => hR R (hres ▸ hr))
+    · cases h
+
+/-- **C05_read_only_sequence** (a read-only resource stays what it is).  On a resource whose writable
+mask is non-nil without paths, for EVERY finite sequence of ordinary writes — each with its own
+option list, any update masks (accepted or rejected), written messages of any shape, `Collection.Add`
+of other items in between — that carry no reset mask (or carry it under an empty non-nil update
+mask), the stored message after the sequence is exactly the initial one.  By induction on the
+sequence; no hypothesis on the messages. -/
+theorem C05_read_only_sequence (S : Schema) (ty : Nat) :
+    ∀ (steps : List Step) (stored : Fields),
+      (∀ s ∈ steps, s.fresh = false →
+        OrdinaryWrite s.opts ∧ (specUpdate s.opts = some [] ∨ specReset s.opts = none)) →
+      finalStored S ty (some []) stored steps = stored := by
+  intro steps
+  induction steps with
+  | nil => intro stored _; rfl
+  | cons s rest ih =>
+    intro stored hall
+    have hrest : ∀ s' ∈ rest, s'.fresh = false →
+        OrdinaryWrite s'.opts ∧ (specUpdate s'.opts = some [] ∨ specReset s'.opts = none) :=
+      fun s' hs' => hall s' (List.mem_cons_of_mem _ hs')
+    unfold finalStored
+    cases ho : s.run S ty (some []) stored with
+    | panic => rfl
+    | err c => simp only [Step.next]; exact ih stored hrest
+    | ok st src' =>
+      simp only [Step.next]
+      cases hf : s.fresh with
+      | true => simp only [if_true]; exact ih stored hrest
+      | false =>
+        simp only [Bool.false_eq_true, if_false]
+        obtain ⟨hro, hq⟩ := hall s (List.mem_cons_self ..) hf
+        unfold Step.run at ho
+        simp only [hf, Bool.false_eq_true, if_false] at ho
+        have := ((C05_read_only_write S ty s.opts hro stored s.src).2.2 st src' ho).1 hq
+        rw [this]
+        exact ih stored hrest
 
 /-- **C05_more_update_legacy_fails** (before 5cc1d68).  `WithUpdatePaths("f", "f.zz")` names the
 unknown field `f.zz` and is rejected with `InvalidArgument` — but followed by
@@ -320,5 +522,65 @@ fields `{g}` changes `g` twice and keeps `f`. -/
 example : (finalStored wSchema 0 (some [["g"]]) wStored
       [⟨[], .cons "g" (.sc "i8") .nil, false⟩, ⟨[.updateMask (some [["g"]])], .cons "g" (.sc "i9") .nil, false⟩]).get "f"
     = wStored.get "f" := by decide
+
+/-- `C05_sequence_frame_depth` applies to the nested path `f.d` on a resource with writable fields
+`{f.c, g}`: a bare ordinary write of `{f={c=5}, g=8}` and a masked write `{f.c}` of `{g=9}` both avoid
+`f.d`, their written messages fit it … -/
+example : AvoidsPath ["f", "d"] ((computeWriteConfig []).fieldUpdater (some [["f", "c"], ["g"]])) ∧
+    AvoidsPath ["f", "d"] ((computeWriteConfig [.updateMask (some [["f", "c"]])]).fieldUpdater (some [["f", "c"], ["g"]])) ∧
+    ¬ AvoidsPath ["f", "d"] ((computeWriteConfig [.updateMask (some [["f"]])]).fieldUpdater (some [["f", "c"], ["g"]])) := by
+  refine ⟨⟨⟨[["f", "c"], ["g"]], by decide, by decide, by decide, by decide⟩, ?_⟩, ⟨?_, ?_⟩, ?_⟩
+  · intro R h; cases h
+  · show Clean [["f", "c"]] ∧ NonNil [["f", "c"]] ∧ Unrelated ["f", "d"] [["f", "c"]]
+    decide
+  · intro R h; cases h
+  · rintro ⟨⟨_, _, hu⟩, _⟩
+    exact (hu ["f"] (List.mem_cons_self ..)).1 (by decide)
+example : Fits (wStored.getPath ["f", "d"]) ["f", "d"]
+      (.cons "f" (.msg (.cons "c" (.sc "i5") .nil)) (.cons "g" (.sc "i8") .nil)) ∧
+    Fits (wStored.getPath ["f", "d"]) ["f", "d"] (.cons "g" (.sc "i9") .nil) ∧
+    NoDupAlong ["f", "d"] (.cons "f" (.msg (.cons "c" (.sc "i5") .nil)) (.cons "g" (.sc "i8") .nil)) := by
+  refine ⟨by simp [Fits, Fields.get], by simp [Fits, Fields.get], by simp [NoDupAlong, Fields.keys, Fields.get]⟩
+/-- `C05_fits_of_conforms` applies: `f.d` runs through the singular message field `f`, the stored and
+written messages of these examples conform to `wSchema`. -/
+example : MsgPath wSchema 0 ["f", "d"] ∧ Fields.conforms wSchema 0 wStored = true ∧
+    Fields.conforms wSchema 0 (.cons "f" (.msg (.cons "c" (.sc "i5") .nil)) (.cons "g" (.sc "i8") .nil)) = true :=
+  ⟨⟨⟨⟨"f", .message 1, 0⟩, 1, by decide, rfl⟩, trivial⟩, by decide, by decide⟩
+/-- … and the sequence changes `f.c` twice (5, then cleared) and `g`, and keeps `f.d`. -/
+example : (finalStored wSchema 0 (some [["f", "c"], ["g"]]) wStored
+      [⟨[], .cons "f" (.msg (.cons "c" (.sc "i5") .nil)) (.cons "g" (.sc "i8") .nil), false⟩,
+       ⟨[.updateMask (some [["f", "c"]])], .cons "g" (.sc "i9") .nil, false⟩])
+    = .cons "f" (.msg (.cons "d" (.sc "i2") .nil)) (.cons "g" (.sc "i8") .nil) := by decide
+
+/-- `C05_constructors_keep_paths`: `WithUpdatePaths("f", "f.zz", "f")` then `WithMoreUpdatePaths("g", "f")`
+— the mask is the five paths as given; `WithUpdatePaths("f", "f.zz")` is rejected exactly like
+`WithUpdateMask` of the same paths (the unknown `f.zz` is not normalised away under `f`). -/
+example : (computeWriteConfig ([WCtor.withUpdatePaths [["f"], ["f", "zz"], ["f"]],
+        WCtor.withMoreUpdatePaths [["g"], ["f"]]].map WCtor.opt)).update
+      = some [["f"], ["f", "zz"], ["f"], ["g"], ["f"]] ∧
+    writeWith wSchema 0 none ([WCtor.withUpdatePaths [["f"], ["f", "zz"]]].map WCtor.opt) wStored .nil
+      = .err .invalidArgument ∧
+    writeWith wSchema 0 none ([WCtor.withUpdateMask (some [["f", "zz"], ["f"]])].map WCtor.opt) wStored .nil
+      = .err .invalidArgument ∧
+    writeWith wSchema 0 none ([WCtor.withUpdatePaths [["f"]]].map WCtor.opt) wStored .nil
+      = .ok (.cons "g" (.sc "i7") .nil) .nil := by decide
+
+/-- `C05_read_only_write` / `C05_read_only_sequence` apply: bare writes and masked writes are ordinary
+writes; on the read-only resource a bare write is accepted and changes nothing, a masked one is
+rejected, an empty mask with a reset mask changes nothing — while the same bare write on a resource
+WITHOUT writable mask replaces the stored message. -/
+example : OrdinaryWrite [] ∧ OrdinaryWrite [.updateMask (some [["g"]]), .moreWritable (some [])] ∧
+    ¬ OrdinaryWrite [.moreWritable (some [["g"]])] := by
+  refine ⟨⟨by simp, by simp⟩, ⟨by simp, by simp⟩, ?_⟩
+  rintro ⟨_, h⟩
+  exact absurd (h [["g"]] (List.mem_cons_self ..)) (by simp)
+example : writeWith wSchema 0 (some []) [] wStored (.cons "g" (.sc "i9") .nil)
+      = .ok wStored (.cons "g" (.sc "i9") .nil) ∧
+    writeWith wSchema 0 (some []) [.updateMask (some [["g"]])] wStored (.cons "g" (.sc "i9") .nil)
+      = .err .invalidArgument ∧
+    writeWith wSchema 0 (some []) [.updateMask (some []), .resetMask (some [["g"]])] wStored (.cons "g" (.sc "i9") .nil)
+      = .ok wStored (.cons "g" (.sc "i9") .nil) ∧
+    writeWith wSchema 0 none [] wStored (.cons "g" (.sc "i9") .nil)
+      = .ok (.cons "g" (.sc "i9") .nil) (.cons "g" (.sc "i9") .nil) := by decide
 
 end ScVerif.C05
